@@ -148,7 +148,7 @@ def counterexample(out):
 def run_mc(name, tier, wd, workers=10, timeout=None):
     cfg = os.path.join(wd, f"MC_{name}_{tier}.cfg")
     write_cfg(cfg, name, tier)
-    timeout = timeout or (150 if tier == "quick" else 1500)
+    timeout = timeout or (150 if tier == "quick" else 900)
     r = tlc(os.path.join(SPEC, "MC_Life.tla"), cfg, wd, workers=workers, timeout=timeout, xmx="12g",
             extra=["-coverage", "1000"])
     out = r["out"]
